@@ -4,7 +4,7 @@
    internal/blocksignificant/blocksignificant.hpp, native/subnormal.hpp tables via UVerif.Generated).
   Transcribed branch by branch; bit loops are written as the shifts/masks they compute.
   The code is modelled AS IT IS, including
-    D3  operator== compares blocks (so +0 != -0),
+    (D3, bitwise operator==, was repaired in /repo by d3ba933: the model follows the repaired code)
     D4  convert(): saturating configurations return the inf encoding when rounding lands on it,
     D5  convert(): blocktriples wider than 64 bits are truncated, not rounded, and not remapped,
     D6  operator-- / operator++ on a single block do not mask the bits above nbits.
@@ -270,9 +270,12 @@ def div (c : Cfg) (a b : Nat) : Nat :=
 
 /-! ### comparisons (cfloat_impl.hpp:3356-3422) -/
 
-/-- `operator==`: NaN unequal to everything, otherwise block-wise equality (D3: +0 ≠ −0) -/
+/-- `operator==` (after the repair d3ba933): NaN unequal to everything; any two encodings that `iszero()` classifies
+    as zero are equal (+0 == −0, and the exponent-0 aliases without subnormals); otherwise block-wise equality -/
 def eq (c : Cfg) (a b : Nat) : Bool :=
-  if isNan c a || isNan c b then false else a == b
+  if isNan c a || isNan c b then false
+  else if isZero c a && isZero c b then true
+  else a == b
 
 def lt (c : Cfg) (a b : Nat) : Bool :=
   if isNan c a || isNan c b then false
